@@ -100,6 +100,9 @@ def build(tier, rnd):
         for ac in ACCESS:
             cases.append(("proto:" + sn, "%s; %s" % (sh, ac), False))
             cases.append(("proto:" + sn, "%s; do %s catch all 0 end" % (sh, ac), False))
+    for prog in ["def f() do return; end; f()", "def f() do return end; f()", "def f() return; f()", "def f() do 1; return; end; f()", "return", "return;",
+                 "for x in [1] do return end", "def f() do if TRUE then return; 5 end; f()", "(fn() do return end)()", "def o = <*m = fn(self) do return; end*>; o->m()"]:
+        cases.append(("bare-return", prog, False))
     for f in FORMS1:
         for a in P:
             cases.append((f, f.replace("$a", a), False))
